@@ -153,6 +153,11 @@ CASES = [
      "            i = get_instruction_index_from_offset(arg1_start_offset, instructions, 1)\n        j = skip_cache(instructions, i + 1)", "lookup-result"),
     ("m-c12-call-unguarded", "C12", "fire", "xdis/opcodes/format/extended.py", "    assert i is not None\n    if i >= len(instructions) - 1:\n        return \"\", None\n", "    assert i is not None\n", "index:instructions[i + 1]"),
     ("m-c01-pypy-ident-bytes", "C01", "fire", "xdis/unmarshal.py", "            co_filename = self.r_object(bytes_for_s=False)\n            co_name = self.r_object(bytes_for_s=False)", "            co_filename = self.r_object(bytes_for_s=bytes_for_s)\n            co_name = self.r_object(bytes_for_s=bytes_for_s)", "bytes_for_s:filename"),
+    ("m-c14-strict-unicode", "C14", "fire", "xdis/marsh.py", "        ret = s.decode(\"utf8\", \"surrogatepass\")", "        ret = s.decode(\"utf8\")", "unicode-decode"),
+    ("m-c14-dump-raw-sink", "C14", "fire", "xdis/marsh.py", "    f.write(dumps(x, version, python_version))", "    m = _Marshaller(f.write, python_version)\n    m.dump(x)", "marshaller-sink"),
+    ("m-c14-load-bytes-key", "C14", "fire", "xdis/marsh.py", "        if not isinstance(c, str):\n            # type codes are kept as text; a binary file gives bytes\n            c = c.decode(\"latin-1\")\n", "", "dispatch-key-is-text"),
+    ("m-c14-ord-py3", "C14", "fire", "xdis/marsh.py", "    return c if isinstance(c, int) else ord(c)", "    return c if PYTHON3 else ord(c)", "integer-from-bytes"),
+    ("s-c14-load-chr-key", "C14", "silent", "xdis/marsh.py", "            c = c.decode(\"latin-1\")\n        try:\n            return self.dispatch[c](self)", "            c = c.decode(\"ascii\", \"replace\")\n        try:\n            return self.dispatch[c](self)", ""),
 ]
 
 
